@@ -31,6 +31,127 @@ def ref_effective(target, mn):
 
 SYMKEYS = ('androguard.core.apk',)
 
+# ------------------------------------------------------------------ manifest models (enumerated through the executor)
+A_NS = 'http://schemas.android.com/apk/res/android'
+PKG = 'org.ex.app'
+NAMES = ['.ui.Main', 'Main', 'org.ex.app.Main', 'org.other.X']
+SECOND = ['none', 'alias+launcher', 'activity+launcher', 'alias']
+SECOND_NAMES = ['.Alias', 'Alias', 'org.ex.app.zz.Z']
+ENABLED = [None, True, False]
+PERMS = [[], [['android.permission.INTERNET', None]], [['android.permission.INTERNET', None], ['android.permission.INTERNET', 22]],
+         [['android.permission.CAMERA', 28], ['a.b.CUSTOM', None]]]
+SDKS = [(None, None, None), (21, 30, None), (7, None, 19), (None, 33, None)]
+SLOTS = [len(NAMES), len(SECOND), len(SECOND_NAMES), len(ENABLED), len(NAMES), len(PERMS), len(SDKS)]
+
+
+def complete(name):
+    if name.startswith('.'):
+        return PKG + name
+    if '.' not in name:
+        return PKG + '.' + name
+    return name
+
+
+def manifest_model(ch):
+    a_name, second, s_name, enabled, svc, perms, sdk = (NAMES[ch[0]], SECOND[ch[1]], SECOND_NAMES[ch[2]], ENABLED[ch[3]], NAMES[ch[4]],
+                                                         PERMS[ch[5]], SDKS[ch[6]])
+    return dict(activity=a_name, second=second, second_name=s_name, enabled=enabled, service=svc, perms=perms, sdk=sdk)
+
+
+def manifest_bytes(M):
+    from .. import axmlw
+
+    def E(name, attrs=(), kids=()):
+        return dict(ns=None, name=name, attrs=list(attrs), kids=list(kids), comment=None)
+
+    def S(name, v, ns=A_NS):
+        return dict(ns=ns, name=name, type=3, value=v)
+
+    def V(name, t, d, ns=A_NS):
+        return dict(ns=ns, name=name, type=t, data=d, raw=None)
+
+    def launcher():
+        return E('intent-filter', [], [E('action', [S('name', 'android.intent.action.MAIN')]),
+                                       E('category', [S('name', 'android.intent.category.LAUNCHER')])])
+    act_attrs = [S('name', M['activity'])]
+    if M['enabled'] is not None:
+        act_attrs.append(V('enabled', 0x12, 0xffffffff if M['enabled'] else 0))
+    app = [E('activity', act_attrs, [launcher()])]
+    if M['second'] == 'alias+launcher':
+        app.append(E('activity-alias', [S('name', M['second_name']), S('targetActivity', M['activity'])], [launcher()]))
+    elif M['second'] == 'alias':
+        app.append(E('activity-alias', [S('name', M['second_name']), S('targetActivity', M['activity'])]))
+    elif M['second'] == 'activity+launcher':
+        app.insert(0, E('activity', [S('name', M['second_name'])], [launcher()]))
+    app += [E('service', [S('name', M['service'])]), E('receiver', [S('name', 'org.other.R')]), E('provider', [S('name', '.P')]),
+            E('uses-library', [S('name', 'org.apache.http.legacy')])]
+    top = []
+    mn, tg, mx = M['sdk']
+    if (mn, tg, mx) != (None, None, None):
+        top.append(E('uses-sdk', [V(n, 0x10, v) for n, v in (('minSdkVersion', mn), ('targetSdkVersion', tg), ('maxSdkVersion', mx)) if v is not None]))
+    for name, mxs in M['perms']:
+        top.append(E('uses-permission', [S('name', name)] + ([V('maxSdkVersion', 0x10, mxs)] if mxs is not None else [])))
+    top.append(E('uses-feature', [S('name', 'android.hardware.camera')]))
+    doc = dict(utf8=True, namespaces=[('android', A_NS)], resids={},
+               root=E('manifest', [S('package', PKG, ns=None), V('versionCode', 0x10, 7), S('versionName', '1.2-beta')], top + [E('application', [], app)]))
+    blob, _ = axmlw.write(doc)
+    import io
+    import zipfile
+    z = io.BytesIO()
+    with zipfile.ZipFile(z, 'w') as f:
+        f.writestr('AndroidManifest.xml', blob)
+    return z.getvalue()
+
+
+def manifest_expected(M):
+    acts = [complete(M['activity'])]
+    launchers = []
+    if M['enabled'] is not False:
+        launchers.append(complete(M['activity']))
+    if M['second'] == 'activity+launcher':
+        acts.insert(0, complete(M['second_name']))
+        launchers.append(complete(M['second_name']))
+    elif M['second'] == 'alias+launcher':
+        launchers.append(complete(M['second_name']))
+    good = sorted(set(launchers) & set(acts))
+    main = good[0] if good else (sorted(set(launchers))[0] if launchers else None)
+    mn, tg, mx = M['sdk']
+    st = lambda v: None if v is None else str(v)
+    eff = tg if tg is not None else (mn if mn is not None else 1)
+    names = [n for n, _ in M['perms']]
+    return dict(package=PKG, version_code='7', version_name='1.2-beta', permissions=sorted(set(names)), permissions_unique=True,
+                uses_permissions=sorted([[n, m] for n, m in M['perms']], key=repr), activities=acts, services=[complete(M['service'])], receivers=['org.other.R'],
+                providers=[PKG + '.P'], main_activity=main, main_candidates=sorted(set(launchers)), min_sdk=st(mn), target_sdk=st(tg), max_sdk=st(mx),
+                effective_target=eff, features=['android.hardware.camera'], libraries=['org.apache.http.legacy'])
+
+
+def manifest_observed(apkmod, raw):
+    a = apkmod.APK(raw, raw=True)
+    p = a.get_permissions()
+    return dict(package=a.get_package(), version_code=a.get_androidversion_code(), version_name=a.get_androidversion_name(),
+                permissions=sorted(set(p)), permissions_unique=len(p) == len(set(p)), uses_permissions=sorted([list(x) for x in a.uses_permissions], key=repr),
+                activities=list(a.get_activities()), services=list(a.get_services()), receivers=list(a.get_receivers()),
+                providers=list(a.get_providers()), main_activity=a.get_main_activity(), min_sdk=a.get_min_sdk_version(),
+                target_sdk=a.get_target_sdk_version(), max_sdk=a.get_max_sdk_version(), effective_target=a.get_effective_target_sdk_version(),
+                features=list(a.get_features()), libraries=list(a.get_libraries()))
+
+
+def manifest_diff(obs, exp):
+    bad = []
+    for k, v in obs.items():
+        w = exp[k]
+        if isinstance(v, list) and isinstance(w, list) and k != 'uses_permissions':
+            v, w = sorted(v), sorted(w)           # the listings are compared as multisets (their order is not part of the property)
+        if k == 'main_activity' and len(exp['main_candidates']) > 1:
+            # several launcher entries: a real activity is preferred over an alias, ties in lexical order (the rule the
+            # code documents); any other answer, or one outside the candidates, is wrong
+            if v != w:
+                bad.append('main activity %r, the enabled MAIN/LAUNCHER entries are %r (expected %r)' % (v, exp['main_candidates'], w))
+            continue
+        if v != w:
+            bad.append('%s: reported %r, the manifest declares %r' % (k, v, w))
+    return bad
+
 
 def job(jc, spec):
     kind = spec[0]
@@ -66,6 +187,30 @@ def job(jc, spec):
                 want = z3.If(first_dot, (pk + v).eq_term(r), z3.If(no_dot, (pk + '.' + v).eq_term(r), v.eq_term(r)))
             jc.obligation(eng, pc, want, ext, label=label, what='component name not completed by the Android rule')
         eng.partition_guard()
+    elif kind == 'manifest':
+        # whole APK objects from enumerated manifest models (lxml and the zip reader run concretely: the executor only
+        # enumerates the model choices here, no solver query decides)
+        first = spec[1]
+        eng = jc.new_engine(max_paths=10 ** 6)
+        label = 'manifest models'
+
+        def gom():
+            ch = list(first) + [engine().choose(n) for n in SLOTS[len(first):]]
+            M = manifest_model(ch)
+            return ch, manifest_diff(manifest_observed(apkmod, manifest_bytes(M)), manifest_expected(M))
+        for pc, (k, r) in eng.explore(gom):
+            jc.reached('manifest')
+            eng.st.obligations += 1
+            if k == 'exc':
+                jc.concrete_violation(dict(kind='manifest', choices=None, note=repr(r)), label=label, what='APK raised %r' % (r,))
+                continue
+            ch, bad = r
+            if bad:
+                jc.concrete_violation(dict(kind='manifest', choices=ch), label=label, what=bad[0])
+            else:
+                eng.st.discharged += 1
+        if first == (0, 0):
+            jc.sample(dict(case='manifest models with first choices %r' % (first,), models=eng.st.paths, example=manifest_model([0, 1, 0, 0, 1, 2, 1])))
     elif kind == 'format2':
         # two APK objects in one process (the answer for one must not depend on what the other was asked before)
         _, nv, npk = spec
@@ -158,8 +303,9 @@ def run(ctx):
     ctx.diff_unhooked(sys.modules[__name__], HISTORY)
     jobs = [('format', nv, npk) for nv in range(0, 7) for npk in (0, 1, 4)]
     jobs += [('format2', nv, npk) for nv in (1, 2, 3) for npk in (1, 2)]
+    jobs += [('manifest', (a, b)) for a in range(SLOTS[0]) for b in range(SLOTS[1])]
     jobs += [('sdk', t, m) for t in (None, '', 1, 2, 3) for m in (None, '', 1, 2)]
-    ctx.expect_reach(['format', 'sdk'])
+    ctx.expect_reach(['format', 'sdk', 'manifest'])
     ctx.pmap(job, jobs)
     ctx.sample(dict(kernels=FUNCS, jobs=len(jobs)))
 
@@ -176,6 +322,16 @@ def concrete(c):
 
 
 def replay(w):
+    if w.get('kind') == 'manifest':
+        if w.get('choices') is None:
+            return False, w.get('note')
+        from androguard.core import apk as apkmod
+        M = manifest_model(w['choices'])
+        try:
+            bad = manifest_diff(manifest_observed(apkmod, manifest_bytes(M)), manifest_expected(M))
+        except Exception as e:
+            return True, 'manifest model %r: APK raised %r' % (M, e)
+        return bool(bad), 'manifest model %r: %s' % (M, '; '.join(bad[:3]))
     try:
         for h in HISTORY:
             concrete(h)
